@@ -258,6 +258,7 @@ class Node(object):
             )
             individual.prev_priority_class = individual.priority_class
             individual.priority_class = self.simulation.network.priority_class_mapping[individual.customer_class]
+            self.simulation.statetracker.change_state_classchange(self, individual)
 
     def change_customer_class_while_waiting(self):
         """
